@@ -233,10 +233,17 @@ class World:
 
         for self.step in range(cfg['nsteps']):
             stmts, kinds = self.draw_message()
-            self.one_message(stmts, kinds)
+            self.drive(self.one_message(stmts, kinds))
             if self.violations:
                 break
         return self.result()
+
+    @staticmethod
+    def drive(gen):
+        """one_message / one_script are generators so that the pooled mode can
+        suspend them at the compile call; in the direct mode they never yield."""
+        for _ in gen:
+            raise HarnessError('direct mode must not suspend')
 
     # -- statement generation ------------------------------------------------------
     def draw_stmt(self):
@@ -426,6 +433,10 @@ class World:
 
     # -- one client message ------------------------------------------------------------
     def compile_message(self, stmts):
+        return self.compile_direct(stmts)
+        yield   # (generator: the pooled mode suspends here instead)
+
+    def compile_direct(self, stmts):
         """dbview._compile(): chooses compile / compile_in_tx and ships the
         state blob (dbview.pyx:1630-1672, worker.py compile_in_tx)."""
         isl, dv, t = self.isl, self.dv, self.tape
@@ -468,7 +479,7 @@ class World:
 
     def one_message(self, stmts, kinds):
         if len(stmts) > 1 and not any(k in self.TCL for k, _ in kinds):
-            return self.one_script(stmts, kinds)
+            return (yield from self.one_script(stmts, kinds))
         isl, dv, m, t = self.isl, self.dv, self.m, self.tape
         errors = isl['errors']
         is_script = len(stmts) > 1
@@ -490,7 +501,7 @@ class World:
 
         # ---- compile (dbview.parse) ----
         try:
-            ug = self.compile_message(stmts)
+            ug = yield from self.compile_message(stmts)
             # dbview.pyx:1590-1602  _check_in_tx_error()
             if dv.tx_error:
                 first = ug[0]
@@ -627,7 +638,7 @@ class World:
 
         isl['observed'].clear()
         try:
-            ug = self.compile_message(stmts)
+            ug = yield from self.compile_message(stmts)
             if dv.tx_error:
                 raise errors.TransactionError('current transaction is aborted')   # len(ug) > 1
             compiled = True
